@@ -212,16 +212,19 @@ def rtcpCipher (S : Suite) (c : Ctx) (index : Nat) (pkt : Bytes) : Bytes :=
 def rtcpTag (S : Suite) (c : Ctx) (m : Bytes) : Bytes :=
   (S.mac c.rtcp.ak m).take c.profile.rtcpTagLen
 
+/-- the 32-bit word appended to an SRTCP packet: `E ‖ index`; the NULL cipher sends `E = 0` -/
+def Ctx.eWord (c : Ctx) (index : Nat) : Nat := if c.encrypts then withEBit index else index
+
 /-- `SrtpContext::protect_rtcp` (the caller guarantees `pkt.length ≥ 8`). -/
 def Ctx.protectRtcp (S : Suite) (c : Ctx) (pkt : Bytes) : Except Err Bytes × Ctx :=
   let index := (c.rtcpIndex + 1) % 4294967296
   let c' := { c with rtcpIndex := index }
-  let iwe := withEBit index
+  let iwe := c.eWord index
   if c.profile = .gcm then
     let aad := pkt.take 8 ++ be32 iwe
     (.ok (pkt.take 8 ++ S.aeadSeal c.rtcp.ck (gcmRtcpNonce c.rtcp.salt c.ssrc index) aad (pkt.drop 8) ++ be32 iwe), c')
   else
-    let enc := if pkt.length > 8 then rtcpCipher S c index pkt else pkt
+    let enc := if pkt.length > 8 ∧ c.encrypts then rtcpCipher S c index pkt else pkt
     let m := enc ++ be32 iwe
     (.ok (m ++ rtcpTag S c m), c')
 
@@ -238,11 +241,10 @@ def Ctx.unprotectRtcp (S : Suite) (c : Ctx) (pkt : Bytes) : Except Err Bytes × 
   else if c.profile = .gcm then
     let iwe := last4 pkt
     let index := iwe % (srtcpIndexMask + 1)
-    let c' := c.bumpRtcp index                     -- before authentication
     let aad := pkt.take 8 ++ be32 iwe
     match S.aeadOpen c.rtcp.ck (gcmRtcpNonce c.rtcp.salt c.ssrc index) aad ((pkt.take (pkt.length - 4)).drop 8) with
-    | none => (.error .authFailed, c')
-    | some pt => (.ok (pkt.take 8 ++ pt), c')
+    | none => (.error .authFailed, c)
+    | some pt => (.ok (pkt.take 8 ++ pt), c.bumpRtcp index)       -- only after authentication
   else
     let split := pkt.length - tagLen
     let m := pkt.take split
@@ -252,7 +254,7 @@ def Ctx.unprotectRtcp (S : Suite) (c : Ctx) (pkt : Bytes) : Except Err Bytes × 
       let body := m.take (m.length - 4)
       let index := iwe % (srtcpIndexMaskCm + 1)
       let c' := c.bumpRtcp index
-      if iwe ≥ srtcpEBit ∧ body.length > 8 then (.ok (rtcpCipher S c index body), c')
+      if iwe ≥ srtcpEBit ∧ c.encrypts ∧ body.length > 8 then (.ok (rtcpCipher S c index body), c')
       else (.ok body, c')
 
 /-! ### Session -/
@@ -310,8 +312,9 @@ def Sess.protectRtcp (S : Suite) (s : Sess) (now : Nat) (pkt : Bytes) : Except E
   else s.withTx S now (ssrcOfRtcp pkt) (fun c => c.protectRtcp S pkt)
 
 /-- receive side (after the `fix:` commit): the table is touched only after `f` succeeded —
-a context is created, stamped and eviction runs only for an authenticated packet. The in-place
-mutation `f` performs on an existing context before failing is kept. -/
+a context is created, stamped and eviction runs only for an authenticated packet. (Whatever `f`
+does to an existing context before failing is kept, as in the code — since the second `fix:` commit
+of C05 `unprotect` / `unprotect_rtcp` change nothing on failure.) -/
 def Sess.withRx {α : Type} (S : Suite) (s : Sess) (now ssrc : Nat) (f : Ctx → Except Err α × Ctx) :
     Except Err α × Sess :=
   match lookup s.rx ssrc with
